@@ -100,6 +100,10 @@ def cmd_run(names, tier="quick", all_checks=False):
                 results.append(dict(name=n, status="PATCH-DOES-NOT-APPLY", detail=a.stderr[:200]))
                 print(n, "PATCH-DOES-NOT-APPLY")
                 continue
+            if meta.get("obsolete"):
+                results.append(dict(name=n, property=prop, status="OBSOLETE", detail=meta["obsolete"]))
+                print("%-10s OBSOLETE (%s)" % (n, meta["obsolete"][:120]))
+                continue
             drc, _ = demo(w, os.path.join(d, "demo.py"))
             if drc != 1:
                 results.append(dict(name=n, property=prop, status="OBSOLETE", detail="its own demonstration no longer fails on /repo HEAD + patch (exit %d): a later fix: commit removed the breakage" % drc))
